@@ -90,7 +90,7 @@ def gen_sql_value(rng, typ):
     raise ValueError(typ)
 
 
-def bulk_plan(rng):
+def bulk_plan(rng, huge=False, tier="quick"):
     """A batch size above the writer's default (1000) and more rows than that default, with looks on the way: a
     batch size that gets lost between the caller and the writer shows as a partly visible batch."""
     fields = ["n", "s"] if "n" in FIELD_TYPES and "s" in FIELD_TYPES else sorted(FIELD_TYPES)[:2]
@@ -100,18 +100,25 @@ def bulk_plan(rng):
     batch = rng.choice([1200, 1500])
     ops = []
     n = rng.choice([1050, 1150])
+    rbatch = rng.choice([None, 1, 999, 1001, 1049, 100000])
+    if huge:
+        # more rows than any round-number cap a reader or writer might carry (10 000, 2**14), fetched in batches
+        # above and below it; the values are trivial so that the run stays cheap
+        n = 10007 if tier == "quick" else rng.choice([10007, 16390])
+        batch = rng.choice([20000, 1000])
+        rbatch = rng.choice([10001, 16385, 50000, 100000, None])
     looks = sorted(rng.sample(range(1001, n), 2))
     for i in range(n):
         ops.append({"op": "write", "desc": key, "values": [gen_sql_value(rng, FIELD_TYPES[f]) for f in fields]})
         if i + 1 in looks:
             ops.append({"op": "observe", "conn": 0})
     ops.append({"op": "close", "how": "close"})
-    return {"batch": batch, "alt_batch": 1000, "pool": pool, "ops": ops, "mode": "observe", "via": rng.choice(["direct", "uri", "split"]), "dbname": "t.db", "bulk": True}
+    return {"batch": batch, "alt_batch": 1000 if batch != 1000 else 3000, "pool": pool, "ops": ops, "mode": "observe", "via": rng.choice(["direct", "uri", "split"]), "dbname": "t.db", "bulk": True, "rbatch": rbatch}
 
 
 def generate(rng, tier, index):
     if rng.random() < 0.006:
-        return bulk_plan(rng)
+        return bulk_plan(rng, huge=rng.random() < 0.04, tier=tier)
     n_tables = rng.choice([1, 1, 2, 2, 3])
     names = rng.sample(TABLE_NAMES, n_tables)
     fnames = sorted(FIELD_TYPES)
@@ -195,7 +202,9 @@ def generate(rng, tier, index):
     # how the writer is constructed and what the database file is called: neither may matter
     via = rng.choice(["direct", "direct", "uri", "split"])
     dbname = rng.choice(["t.db", "t.db", "t%41.db", "what?.db", "part#1.db", "100%25done.db"]) if via == "direct" else rng.choice(["t.db", "t.db", "t%41.db"])
-    return {"batch": batch, "alt_batch": alt, "pool": pool, "ops": ops, "mode": mode, "via": via, "dbname": dbname}
+    # the fetch batch of the library's reader used for the read-back: it may not matter either
+    rbatch = rng.choice([None, None, 1, 2, 3, 7, 100000])
+    return {"batch": batch, "alt_batch": alt, "pool": pool, "ops": ops, "mode": mode, "via": via, "dbname": dbname, "rbatch": rbatch}
 
 
 # -- expected raw SQL cells (independent of the adapter) ------------------------------------------
@@ -680,7 +689,18 @@ class Workload:
         # the library's reader
         try:
             back = collections.OrderedDict()
-            rd = self.SQ.SqliteReader(self.path)
+            rbatch = self.plan.get("rbatch")
+            if rbatch is None:
+                rd = self.SQ.SqliteReader(self.path)
+            elif rbatch % 2 or self.dbname != "t.db":
+                rd = self.SQ.SqliteReader(self.path, batch_size=rbatch)
+            else:
+                from flow.record import RecordReader
+
+                rd = RecordReader("sqlite://%s?batch_size=%d" % (self.path, rbatch))
+                self.w.probe("reader-via-uri")
+            if rbatch is not None and rbatch > 10000 and len(self.rows) > 10000:
+                self.w.probe("huge-table-huge-fetch")
             for r in rd:
                 back.setdefault(r._desc.name, []).append(r)
             rd.con.close()
